@@ -20,18 +20,19 @@ import (
 )
 
 type Options struct {
-	RepoDir    string            // /repo (the tree whose sources are checked)
-	BuildDir   string            // the directory the go.mod replace points to (default: RepoDir); differs when checking a snapshot of the repository
-	VerifDir   string            // /verif
-	OutDir     string            // scratch directory for rewritten files
-	NoShim     bool              // skip R1 (used for the free-running -race pass)
-	NoMapOrder bool              // skip R2
-	NoNow      bool              // skip R3
-	NoExport   bool              // skip R5
-	Dense      bool              // R4: a scheduling point before every statement of the logging path
-	ExtraFiles map[string]string // additional overlay entries (virtual path -> real file)
-	ExportFile string            // the R5 export file to add (default: VerifDir/_overlay/zz_verif_export.go)
-	DropGen    map[string]bool   // "<generated func>:<variable>" statements to leave out of the generated globals file
+	RepoDir      string            // /repo (the tree whose sources are checked)
+	BuildDir     string            // the directory the go.mod replace points to (default: RepoDir); differs when checking a snapshot of the repository
+	VerifDir     string            // /verif
+	OutDir       string            // scratch directory for rewritten files
+	NoShim       bool              // skip R1 (used for the free-running -race pass)
+	NoMapOrder   bool              // skip R2
+	SkipMapOrder map[string]bool   // R2 is not applied to ranges over these identifiers (the tree under check stores them in something that is no map)
+	NoNow        bool              // skip R3
+	NoExport     bool              // skip R5
+	Dense        bool              // R4: a scheduling point before every statement of the logging path
+	ExtraFiles   map[string]string // additional overlay entries (virtual path -> real file)
+	ExportFile   string            // the R5 export file to add (default: VerifDir/_overlay/zz_verif_export.go)
+	DropGen      map[string]bool   // "<generated func>:<variable>" statements to leave out of the generated globals file
 }
 
 type Report struct {
@@ -214,9 +215,9 @@ func rewriteFile(path, base string, o Options, rep *Report) ([]byte, bool, error
 			wrap := false
 			switch x := z.X.(type) {
 			case *ast.Ident:
-				wrap = mapRangeIdents[x.Name]
+				wrap = mapRangeIdents[x.Name] && !o.SkipMapOrder[x.Name]
 			case *ast.SelectorExpr:
-				wrap = x.Sel.Name == "items" && base == "entry.go"
+				wrap = x.Sel.Name == "items" && base == "entry.go" && !o.SkipMapOrder[x.Sel.Name]
 			}
 			if wrap {
 				z.X = &ast.CallExpr{Fun: ast.NewIdent("verifMapOrder"), Args: []ast.Expr{z.X}}
